@@ -1,12 +1,7 @@
-(* runner.ml -- reads case lines produced by the harness, runs the extracted model and the deciding
-   comparisons, prints one verdict line per case (R <id> OK|VIOL|MIRROR|UNK|ERR <tag> <detail>) and statistics. *)
-let families : (string * (Sexp.t -> unit)) list = [
-  ("c02", Fam_c02.check);
-]
-
-let () =
-  let fam = Sys.argv.(1) in
-  let check = try List.assoc fam families with Not_found -> (prerr_endline ("unknown family " ^ fam); exit 2) in
+(* driver.ml -- reads case lines produced by the harness, hands each to the family checker, which runs the
+   extracted model and the deciding comparisons and prints one verdict line per case
+   (R <id> OK|VIOL|MIRROR|UNK|ERR <tag> <detail>); statistics lines (S <key> <count>) at the end. *)
+let run (check : Sexp.t -> unit) : unit =
   (try
      while true do
        let line = input_line stdin in
